@@ -1130,8 +1130,10 @@ Qed.
 Theorem c02_assign_exec : forall bexec cfg vs name toks (e : expr F),
   execute_ast bexec cfg vs (AAssignment name toks (ast_of e)) =
   Ok (IOk (AItem (INumber (denote e) Decimal)),
-      assoc_insert name {| v_tokens := match assoc name vs with Some vi => v_tokens vi | None => toks end;
-                           v_data := AItem (INumber (denote e) Decimal) |} vs).
+      match assoc name vs with
+      | Some vi => assoc_insert name {| v_tokens := v_tokens vi; v_data := AItem (INumber (denote e) Decimal) |} vs
+      | None => assoc_insert (var_key vs toks) {| v_tokens := toks; v_data := AItem (INumber (denote e) Decimal) |} vs
+      end).
 Proof.
   intros bexec cfg vs name toks e. cbn [execute_ast]. rewrite c02_eval. cbn [bind].
   destruct (assoc name vs); reflexivity.
@@ -1150,8 +1152,10 @@ Proof.
   intros bexec cfg vs n e Hwf Hmem name. subst name.
   rewrite (c02_assign_parse vs n e Hwf).
   eexists. split; [reflexivity|]. split; [apply c02_assign_exec|].
-  rewrite assoc_insert_same. unfold assoc_mem in Hmem.
-  destruct (assoc (to_lowercase n) vs); [discriminate|reflexivity].
+  unfold assoc_mem in Hmem.
+  destruct (assoc (to_lowercase n) vs); [discriminate|].
+  (* the key of a one-word name is the word in lower case: var_key = the lookup key *)
+  change (var_key vs [TText n]) with (to_lowercase n). apply assoc_insert_same.
 Qed.
 
 (* post-processing of the assignment line: the scan starts after the '=' *)
